@@ -434,7 +434,85 @@ func (ex *Exec) implemented() []implInfo {
 
 // implObligations: the interface precondition implies the implementation's.
 func (ex *Exec) implObligations(res *FuncResult) {
+	if ex.con.AssumesImpl != "" {
+		ex.d.trust("assumed for " + ex.sel + " (its declared effects exceed the interface method it implements): " + ex.con.AssumesImpl)
+	}
+	// the same for the function types this function is used as
+	for _, ftn := range ex.con.Implements {
+		ft := ex.w.cons["functype "+ftn]
+		if ft == nil || ex.con.AssumesImpl != "" {
+			continue
+		}
+		for _, p := range ex.con.Panics {
+			ok := false
+			for _, q := range ft.Panics {
+				if q == p || q == "any" {
+					ok = true
+				}
+			}
+			if !ok {
+				ex.oblige(newState(ex), "impl", "functype.panics."+p, nil, tFalse, "implementation declares panic type "+p+" which function type "+ftn+" does not allow")
+			}
+		}
+		if ft.HasAssign && !ft.Pure {
+			impl := ex.con.Assigns
+			if !ex.con.HasAssign && !ex.con.Pure {
+				impl = []string{"*"}
+			}
+			for _, a := range impl {
+				if strings.HasPrefix(a, "alloc ") {
+					continue
+				}
+				ok := false
+				for _, q := range ft.Assigns {
+					if q == "*" || q == a || (strings.HasSuffix(q, "*") && strings.HasPrefix(a, strings.TrimSuffix(q, "*"))) {
+						ok = true
+					}
+				}
+				if !ok {
+					ex.oblige(newState(ex), "impl", "functype.assigns."+a, nil, tFalse, "implementation may write "+a+" which function type "+ftn+" does not list")
+				}
+			}
+		}
+	}
 	for _, im := range ex.implemented() {
+		// callers that go through the interface see only the panics the interface method
+		// declares: the implementation may not add any
+		for _, p := range ex.con.Panics {
+			ok := false
+			for _, q := range im.m.Panics {
+				if q == p || q == "any" {
+					ok = true
+				}
+			}
+			if !ok && ex.con.AssumesImpl == "" {
+				st := newState(ex)
+				ex.oblige(st, "impl", shortSel(im.ic.Sel)+"."+im.m.Name+".panics."+p, nil, tFalse, "implementation declares panic type "+p+" which the interface method "+im.ic.Sel+"."+im.m.Name+" does not allow")
+			}
+		}
+		// ... and the frame they assume is the interface method's: the implementation may not
+		// write (other than into memory it allocates) a heap the interface method does not list
+		if im.m.HasAssign && !im.m.Pure {
+			impl := ex.con.Assigns
+			if !ex.con.HasAssign && !ex.con.Pure {
+				impl = []string{"*"}
+			}
+			for _, a := range impl {
+				if strings.HasPrefix(a, "alloc ") {
+					continue
+				}
+				ok := false
+				for _, q := range im.m.Assigns {
+					if q == "*" || q == a || (strings.HasSuffix(q, "*") && strings.HasPrefix(a, strings.TrimSuffix(q, "*"))) {
+						ok = true
+					}
+				}
+				if !ok && ex.con.AssumesImpl == "" {
+					st := newState(ex)
+					ex.oblige(st, "impl", shortSel(im.ic.Sel)+"."+im.m.Name+".assigns."+a, nil, tFalse, "implementation may write "+a+" which the interface method "+im.ic.Sel+"."+im.m.Name+" does not list")
+				}
+			}
+		}
 		if len(ex.con.Requires) == 0 {
 			continue
 		}
